@@ -285,7 +285,11 @@ def oracle_c14(case, res, guard=True):
     if len({(r[1], r[2]) for r in res["rows"]}) != len(res["rows"]): return "a (sheet, row) is used twice"
     if sorted(set(r[1] for r in res["rows"])) != res["sheets"]: return f"sheets present {res['sheets']} vs sheets with rows"
     return None
+def dates_ok(case):
+    """LocalDatesMonotone (finding F6) matters only where a date cut is applied"""
+    return not (case["to"] or case["from"]) or all(P.local_dates_monotone({"rows": rows}) for rows in case["assets"].values())
 def oracle_c15(case, res, guard=True):
+    if guard and not dates_ok(case): return None      # finding F6: the to-date cut with mixed UTC offsets
     if res["status"].startswith(("gen-error", "crash")) and case["which"] in WHICH["C15"]: return f"the open-positions report could not be generated ({res['status']}): nothing is listed"
     if res["status"] != "ok" or case["which"] != "open": return None
     rowsOA = [r for r in res["rows"] if r[0] == "OA"]
@@ -356,6 +360,7 @@ def shrink_candidates(case):
 def nontrivial(case, i): return i["status"] == "ok" and len(i.get("rows", [])) >= 3
 def hypotheses_failed(case, prop):
     h = ["FeeFiatVisible"] if prop in ("C20", "C16") and case["which"] == "jp" and not fee_visible(case) else []
+    if prop == "C15" and not dates_ok(case): h.append("LocalDatesMonotone")
     if prop == "C19" and any(not P.local_dates_monotone({"rows": rows}) for rows in case["assets"].values()): h.append("LocalDatesMonotone")
     return h
 def note_stats(case, i, st):
